@@ -41,6 +41,8 @@
 #include <sys/wait.h>
 #include <functional>
 #include <vector>
+#include <fstream>
+#include <random>
 
 using namespace VATA;
 using std::string;
@@ -1187,6 +1189,229 @@ static string opParse(const vector<string>& a)
 	return out;
 }
 
+
+// ---------------------------------------------------------------- metamorphic relations and laws (C19)
+static TA loadOperand(const string& tok, TA::AlphabetType& alph)
+{
+	if (!tok.empty() && tok[0] == '@') {
+		std::ifstream in(tok.substr(1));
+		if (!in) throw std::invalid_argument("cannot open " + tok);
+		std::stringstream ss; ss << in.rdbuf();
+		Parsing::TimbukParser parser;
+		TA a;
+		a.SetAlphabet(alph);
+		AutBase::StateDict dict;
+		a.LoadFromString(parser, ss.str(), dict);
+		return a;
+	}
+	return buildTA(parseTA(tok));
+}
+
+// twin: bijective renaming onto sparse numbers, shuffled rule insertion order, permuted symbol numbers
+static TA twinOf(const TA& a, std::mt19937_64& rng, std::map<size_t, size_t>& stMap, std::map<size_t, size_t>& symMap)
+{
+	vector<TA::Transition> trs;
+	for (const TA::Transition& t : a) trs.push_back(t);
+	std::shuffle(trs.begin(), trs.end(), rng);
+	auto st = [&](size_t q) -> size_t {
+		auto it = stMap.find(q);
+		if (it != stMap.end()) return it->second;
+		size_t v;
+		do { v = static_cast<size_t>(rng() % 1000003); } while (false);
+		// make it injective: probe until unused
+		static thread_local std::set<size_t> dummy;
+		std::set<size_t> used;
+		for (auto& p : stMap) used.insert(p.second);
+		while (used.count(v)) v = (v + 7919) % 1000003;
+		stMap[q] = v;
+		return v;
+	};
+	auto sy = [&](size_t f) -> size_t {
+		auto it = symMap.find(f);
+		if (it != symMap.end()) return it->second;
+		std::set<size_t> used;
+		for (auto& p : symMap) used.insert(p.second);
+		size_t v = static_cast<size_t>(rng() % 5003);
+		while (used.count(v)) v = (v + 1) % 5003;
+		symMap[f] = v;
+		return v;
+	};
+	TA b;
+	vector<size_t> fs(a.GetFinalStates().begin(), a.GetFinalStates().end());
+	std::shuffle(fs.begin(), fs.end(), rng);
+	for (const TA::Transition& t : trs) {
+		TA::StateTuple kids;
+		for (size_t k : t.GetChildren()) kids.push_back(st(k));
+		b.AddTransition(kids, sy(t.GetSymbol()), st(t.GetParent()));
+	}
+	for (size_t f : fs) b.SetStateFinal(st(f));
+	return b;
+}
+
+static const unsigned META_SELS[] = {0, 16, 2, 18, 10, 26, 14, 30};
+
+static char inclWordDirect(const TA& a, const TA& b, unsigned w)
+{
+	try {
+		InclParam ip = mkParam(w);
+		if (!(w & 16)) return TA::CheckInclusion(a, b, ip) ? '1' : '0';
+		TA smaller(a), bigger(b);
+		StateType states = AutBase::SanitizeAutsForInclusion(smaller, bigger);
+		TA unionAut = TA::UnionDisjointStates(smaller, bigger);
+		SimParam sp;
+		sp.SetRelation((w & 2) ? SimParam::e_sim_relation::TA_DOWNWARD : SimParam::e_sim_relation::TA_UPWARD);
+		sp.SetNumStates(states);
+		AutBase::StateDiscontBinaryRelation simRel = unionAut.ComputeSimulation(sp);
+		ip.SetSimulation(&simRel);
+		return TA::CheckInclusion(smaller, bigger, ip) ? '1' : '0';
+	}
+	catch (const NotImplementedException&) { return 'N'; }
+	catch (const std::exception&) { return 'E'; }
+}
+
+static char inclWord(const TA& a, const TA& b, unsigned w)
+{
+	return forked([&]() -> char { return inclWordDirect(a, b, w); }, g_selTimeout);
+}
+
+static string inclAllSels(const TA& a, const TA& b)
+{
+	string v;
+	for (unsigned w : META_SELS) v += inclWord(a, b, w);
+	return v;
+}
+
+static size_t numStates(const TA& a) { return a.GetUsedStates().size(); }
+
+// simulation as (count, order-independent hash) in the state names given by `back` (identity when null)
+static string simSig(const TA& a, bool up, const std::map<size_t, size_t>* back)
+{
+	// dense numbering as the CLI does
+	AutBase::StateToStateMap m;
+	size_t cnt = 0;
+	AutBase::StateToStateTranslWeak tw(m, [&cnt](const StateType&) { return cnt++; });
+	TA d = a.ReindexStates(tw);
+	SimParam sp;
+	sp.SetRelation(up ? SimParam::e_sim_relation::TA_UPWARD : SimParam::e_sim_relation::TA_DOWNWARD);
+	sp.SetNumStates(cnt);
+	AutBase::StateDiscontBinaryRelation rel = d.ComputeSimulation(sp);
+	unsigned long long h = 0, n = 0;
+	for (auto& p : m) for (auto& q : m) {
+		if (rel.get(p.second, q.second)) {
+			size_t x = back ? back->at(p.first) : p.first, y = back ? back->at(q.first) : q.first;
+			unsigned long long z = (x * 1000003ULL + y) * 0x9E3779B97F4A7C15ULL;
+			z ^= z >> 29;
+			h += z * 0xBF58476D1CE4E5B9ULL;
+			++n;
+		}
+	}
+	return std::to_string(n) + ":" + std::to_string(h);
+}
+
+template <class F>
+static string guardedStr(F f, int secs)
+{
+	// runs f in a child and returns its string ("T" on overrun, "C" if the child died)
+	int fd[2];
+	if (pipe(fd) != 0) return "C";
+	fflush(stdout);
+	unsigned rem = alarm(0);
+	pid_t pid = fork();
+	if (pid == 0) {
+		close(fd[0]);
+		prctl(PR_SET_PDEATHSIG, SIGKILL);
+		signal(SIGALRM, SIG_DFL);
+		alarm(secs + 2);
+		string r;
+		try { r = f(); } catch (const std::exception&) { r = "E"; }
+		ssize_t w = write(fd[1], r.c_str(), r.size());
+		(void)w;
+		_exit(0);
+	}
+	close(fd[1]);
+	string out;
+	fd_set rs;
+	struct timeval tv;
+	tv.tv_sec = secs; tv.tv_usec = 0;
+	bool killed = false;
+	while (true) {
+		FD_ZERO(&rs); FD_SET(fd[0], &rs);
+		int r = select(fd[0] + 1, &rs, nullptr, nullptr, &tv);
+		if (r <= 0) { kill(pid, SIGKILL); killed = true; break; }
+		char buf[4096];
+		ssize_t n = read(fd[0], buf, sizeof buf);
+		if (n <= 0) break;
+		out.append(buf, static_cast<size_t>(n));
+	}
+	close(fd[0]);
+	int st;
+	waitpid(pid, &st, 0);
+	alarm(rem);
+	if (killed) return "T";
+	if (out.empty()) return "C";
+	return out;
+}
+
+// meta <A|@file> <B|@file> <seed>
+static string opMeta(const vector<string>& a)
+{
+	TA::AlphabetType alph(new TA::OnTheFlyAlphabet);
+	TA A = loadOperand(a.at(0), alph), B = loadOperand(a.at(1), alph);
+	std::mt19937_64 rng(toN(a.at(2)));
+	std::map<size_t, size_t> stA, stB, sym;
+	TA A2 = twinOf(A, rng, stA, sym), B2 = twinOf(B, rng, stB, sym);
+	std::map<size_t, size_t> backA;
+	for (auto& p : stA) backA[p.second] = p.first;
+	std::ostringstream out;
+	int big = g_selTimeout;
+	out << "nA=" << numStates(A) << " nB=" << numStates(B);
+	// 1. verdicts of every selection on the pair and on the twin pair
+	out << " v=" << inclAllSels(A, B) << " vt=" << inclAllSels(A2, B2);
+	// 2. emptiness
+	out << " e=" << guardedStr([&]() { return string(A.IsLangEmpty() ? "1" : "0") + (A2.IsLangEmpty() ? "1" : "0"); }, big);
+	// 3. simulations mapped through the renaming (downward: A; upward: trimmed A)
+	out << " sd=" << guardedStr([&]() { return simSig(A, false, nullptr) + "/" + simSig(A2, false, &backA); }, big);
+	out << " su=" << guardedStr([&]() {
+		TA t = A.RemoveUselessStates(), t2 = A2.RemoveUselessStates();
+		if (t.AreTransitionsEmpty()) return string("-");
+		return simSig(t, true, nullptr) + "/" + simSig(t2, true, &backA); }, big);
+	// 4. sizes after reduction and trimming
+	out << " red=" << guardedStr([&]() { return std::to_string(numStates(A.Reduce())) + "/" + std::to_string(numStates(A2.Reduce())); }, big);
+	out << " trim=" << guardedStr([&]() {
+		return std::to_string(numStates(A.RemoveUselessStates())) + "," + std::to_string(numStates(A.RemoveUnreachableStates())) + "/" +
+			std::to_string(numStates(A2.RemoveUselessStates())) + "," + std::to_string(numStates(A2.RemoveUnreachableStates())); }, big);
+	// 5. laws, each with two selections (upward, and downward recursive with the cache and simulation)
+	for (unsigned w : {0u, 16u, 30u}) {
+		string l = guardedStr([&]() {
+			string l;
+			TA U = TA::Union(A, B), I = TA::Intersection(A, B);
+			l += inclWordDirect(A, A, w);                    // A ⊆ A
+			l += inclWordDirect(A, U, w);                    // A ⊆ A ∪ B
+			l += inclWordDirect(B, U, w);                    // B ⊆ A ∪ B
+			l += inclWordDirect(I, A, w);                    // A ∩ B ⊆ A
+			l += inclWordDirect(I, B, w);                    // A ∩ B ⊆ B
+			l += inclWordDirect(I, U, w);                    // transitivity instance: A ∩ B ⊆ A ⊆ A ∪ B
+			l += inclWordDirect(A, I, w);                    // = (A ⊆ B)
+			l += inclWordDirect(U, B, w);                    // = (A ⊆ B)
+			TA R = A.Reduce(), T = A.RemoveUselessStates(), T2 = A.RemoveUnreachableStates();
+			l += inclWordDirect(A, R, w); l += inclWordDirect(R, A, w);
+			l += inclWordDirect(A, T, w); l += inclWordDirect(T, A, w);
+			l += inclWordDirect(A, T2, w); l += inclWordDirect(T2, A, w);
+			l += '-';
+			{	// re-indexed form
+				AutBase::StateToStateMap m; size_t c = 1000;
+				AutBase::StateToStateTranslWeak tw(m, [&c](const StateType&) { return c += 3; });
+				TA X = A.ReindexStates(tw);
+				l += inclWordDirect(A, X, w); l += inclWordDirect(X, A, w);
+			}
+			return l;
+		}, 3 * big);
+		if (l == "T" || l == "C" || l == "E") l = string(17, l[0] == 'T' ? 'T' : 'E');
+		out << " law" << w << "=" << l;
+	}
+	return out.str();
+}
+
 // ---------------------------------------------------------------- LTS simulation engine
 // lts <n> <edges q,a,r;...|-> <partition b/b/... with b = q,q,... | -> <block relation i.j,... | -> <outputSize> <overload 0|1|2>
 static string opLts(const vector<string>& a)
@@ -1246,6 +1471,7 @@ static string runCase(const string& kind, const vector<string>& args)
 	if (kind == "nfah") return opNfaHist(args);
 	if (kind == "lts") return opLts(args);
 	if (kind == "tah") return opTaHist(args);
+	if (kind == "meta") return opMeta(args);
 	if (kind == "parse") return opParse(args);
 	if (kind == "bddincl") return opBddIncl(args);
 	if (kind == "bddinclall") return opBddInclAll(args);
